@@ -446,7 +446,84 @@ func ruleUnprotectedRecordBounded(c *Ctx, r *Report) {
 	}
 	r.Sites += len(fn.Blocks)
 	matched := map[string]bool{}
-	w := &Walk{Fn: fn, Assume: func(v ssa.Value) (Val, bool) {
+	// the record may be decoded in a helper of the connection that hands back the content, or
+	// what to answer: such a helper (it calls the record decoder) is walked as part of fn
+	decodeHelper := func(callee *ssa.Function) bool {
+		return callee.Pkg == fn.Pkg && len(findCalls(callee, nameHasSuffix("recordlayer.RecordLayer).Unmarshal"))) > 0
+	}
+	// alertIn: may the outcome value v returned on the path ro carry an alert?
+	alertIn := func(ro *RetOutcome, v ssa.Value) string {
+		v = unspill(v)
+		// the path knows the alert field to be nil: nothing is answered
+		if st, isSt := v.Type().Underlying().(*types.Struct); isSt {
+			for i := 0; i < st.NumFields(); i++ {
+				if st.Field(i).Name() != "responseAlert" {
+					continue
+				}
+				var cell *fieldCell
+				if ld, isLd := v.(*ssa.UnOp); isLd && ld.Op == token.MUL {
+					if al, isAl := ld.X.(*ssa.Alloc); isAl && privateStruct(al) {
+						cell = fieldCellOf(al, i)
+					}
+				} else {
+					cell = fieldCellOf(v, i)
+				}
+				if cell != nil {
+					if val, has := ro.Env[cell]; has && val.Kind == 2 && val.B {
+						return ""
+					}
+				}
+			}
+		}
+		judged := func(x ssa.Value) string {
+			ex, isEx := x.(*ssa.Extract)
+			if !isEx {
+				return ""
+			}
+			call, ok := ex.Tuple.(*ssa.Call)
+			if !ok {
+				return ""
+			}
+			if strings.HasSuffix(calleeName(&call.Call), ").handleRecordContent") {
+				return "the outcome of handleRecordContent (which may carry an alert) is returned as it is at " + c.ipos(ro.Ret)
+			}
+			if g := call.Call.StaticCallee(); g != nil && decodeHelper(g) {
+				return "the outcome of " + short(g) + " (which may carry an alert on this path) is returned at " + c.ipos(ro.Ret)
+			}
+			return ""
+		}
+		if why := judged(v); why != "" {
+			return why
+		}
+		// a local variable that holds such an outcome: the last thing stored to it before the return
+		if ld, isLd := v.(*ssa.UnOp); isLd && ld.Op == token.MUL {
+			if al, isAl := ld.X.(*ssa.Alloc); isAl && privateStruct(al) {
+				var stores []*ssa.Store
+				for _, ref := range *al.Referrers() {
+					if st, isSt := ref.(*ssa.Store); isSt && st.Addr == ssa.Value(al) && instrReaches(st, ld) {
+						stores = append(stores, st)
+					}
+				}
+				for _, s1 := range stores {
+					why := judged(s1.Val)
+					if why == "" {
+						continue
+					}
+					overwritten := false
+					for _, s2 := range stores {
+						if s2 != s1 && instrReaches(s1, s2) && !instrReaches(s2, s1) {
+							overwritten = true
+						}
+					}
+					if !overwritten {
+						return why
+					}
+				}
+			}
+		}
+		return ""
+	}
+	w := &Walk{Fn: fn, Follow: decodeHelper, Assume: func(v ssa.Value) (Val, bool) {
 		bo, ok := v.(*ssa.BinOp)
 		if !ok || (bo.Op != token.EQL && bo.Op != token.NEQ) {
 			return unknown, false
@@ -477,10 +554,8 @@ func ruleUnprotectedRecordBounded(c *Ctx, r *Report) {
 			bad = "a response alert is returned at " + c.ipos(ro.Ret)
 		}
 		// an outcome handed through from a callee may carry an alert too
-		if cl, isCall := unspill(ro.Ret.Results[0]).(*ssa.Extract); isCall {
-			if call, ok := cl.Tuple.(*ssa.Call); ok && strings.HasSuffix(calleeName(&call.Call), ").handleRecordContent") {
-				bad = "the outcome of handleRecordContent (which may carry an alert) is returned as it is at " + c.ipos(ro.Ret)
-			}
+		if why := alertIn(ro, ro.Ret.Results[0]); why != "" {
+			bad = why
 		}
 	}
 	ok := bad == "" && matched["epoch"] && matched["remote"] && len(w.Returns) > 0 && !w.overflow
@@ -490,9 +565,23 @@ func ruleUnprotectedRecordBounded(c *Ctx, r *Report) {
 	// ... and, at any time - during the handshake too - an epoch-0 record whose content does not
 	// decode is dropped: with the record's epoch 0 and the record decoder failing, no return
 	// carries an error or an alert, whatever the remote epoch
+	type decodeSite struct {
+		um, via *ssa.Call // the decoder call, and the call of the helper it sits in (nil: in fn itself)
+	}
+	var decodes []decodeSite
 	for _, um := range findCalls(fn, nameHasSuffix("recordlayer.RecordLayer).Unmarshal")) {
-		um0 := um
-		w2 := &Walk{Fn: fn, Assume: func(v ssa.Value) (Val, bool) {
+		decodes = append(decodes, decodeSite{um, nil})
+	}
+	for _, hc := range findCalls(fn, func(string) bool { return true }) {
+		if g := hc.Call.StaticCallee(); g != nil && len(g.Blocks) > 0 && decodeHelper(g) {
+			for _, um := range findCalls(g, nameHasSuffix("recordlayer.RecordLayer).Unmarshal")) {
+				decodes = append(decodes, decodeSite{um, hc})
+			}
+		}
+	}
+	for _, ds := range decodes {
+		um0 := ds.um
+		w2 := &Walk{Fn: fn, Follow: decodeHelper, Assume: func(v ssa.Value) (Val, bool) {
 			if v == ssa.Value(um0) {
 				return vNil(false), true
 			}
@@ -508,9 +597,16 @@ func ruleUnprotectedRecordBounded(c *Ctx, r *Report) {
 			}
 			return unknown, false
 		}}
-		w2.After(um0)
+		if ds.via != nil {
+			w2.At(ds.via)
+		} else {
+			w2.After(um0)
+		}
 		bad2 := ""
 		for _, ro := range w2.Returns {
+			if why := alertIn(ro, ro.Ret.Results[0]); why != "" && !strings.Contains(why, "handleRecordContent") {
+				bad2 = why
+			}
 			last := len(ro.Vals) - 1
 			if last >= 0 && !(ro.Vals[last].Kind == 2 && ro.Vals[last].B) && !isNilConst(unspill(ro.Ret.Results[last])) {
 				bad2 = "an error is returned at " + c.ipos(ro.Ret)
@@ -521,9 +617,20 @@ func ruleUnprotectedRecordBounded(c *Ctx, r *Report) {
 		}
 		r.Check(bad2 == "" && len(w2.Returns) > 0, rule, short(fn)+":undecodable-epoch0", c.ipos(um0), "an epoch-0 record that does not decode is dropped at any time", "an unprotected (epoch 0) record whose content does not decode is answered during the handshake: "+bad2+": one forged 14-byte datagram makes this side send its genuine peer a fatal alert and ends the handshake both are in the middle of")
 	}
-	// application data in epoch 0 is never the peer's: dropped, not answered
-	if ad := c.Fn("(*dtls.Conn).handleApplicationDataRecord"); ad != nil {
-		w3 := (&Walk{Fn: ad, Assume: func(v ssa.Value) (Val, bool) {
+	// application data in epoch 0 is never the peer's: dropped, not answered. Judged in every
+	// function that hands payload to Read (the consumer of application data, wherever it sits):
+	// with the record's epoch 0 and the content application data, no return carries an error
+	// or an alert
+	nAD := 0
+	seenAD := map[*ssa.Function]bool{}
+	for _, dl := range c.readDeliveries() {
+		ad := dl.fn
+		if !dl.payload || seenAD[ad] {
+			continue
+		}
+		seenAD[ad] = true
+		nAD++
+		epochIsZero := func(v ssa.Value) (Val, bool) {
 			bo, okB := v.(*ssa.BinOp)
 			if !okB || (bo.Op != token.EQL && bo.Op != token.NEQ) {
 				return unknown, false
@@ -535,19 +642,54 @@ func ruleUnprotectedRecordBounded(c *Ctx, r *Report) {
 				return vBool(bo.Op == token.EQL), true
 			}
 			return unknown, false
+		}
+		contentIsAppData := assumeAll(
+			atomAssume{mTypeAssertOK("pkg/protocol.ApplicationData"), vBool(true)},
+			atomAssume{func(v ssa.Value) bool {
+				ex, ok := v.(*ssa.Extract)
+				if !ok || ex.Index != 1 {
+					return false
+				}
+				ta, ok := ex.Tuple.(*ssa.TypeAssert)
+				return ok && ta.CommaOk && namedOf(ta.AssertedType) != "pkg/protocol.ApplicationData"
+			}, vBool(false)})
+		w3 := (&Walk{Fn: ad, Assume: func(v ssa.Value) (Val, bool) {
+			if val, ok := epochIsZero(v); ok {
+				return val, true
+			}
+			return contentIsAppData(v)
 		}}).FromEntry()
 		bad3 := ""
 		for _, ro := range w3.Returns {
 			last := len(ro.Vals) - 1
-			if last >= 0 && !(ro.Vals[last].Kind == 2 && ro.Vals[last].B) && !isNilConst(unspill(ro.Ret.Results[last])) {
+			if last >= 0 && isErrorType(ro.Ret.Results[last].Type()) && !(ro.Vals[last].Kind == 2 && ro.Vals[last].B) && !isNilConst(unspill(ro.Ret.Results[last])) {
 				bad3 = "an error is returned at " + c.ipos(ro.Ret)
 			}
-			if v := fieldOfReturnedStruct(ro.Ret, 1, "responseAlert"); v != nil && !isNilConst(v) {
-				bad3 = "a response alert is returned at " + c.ipos(ro.Ret)
+			for i, rv := range ro.Ret.Results {
+				if !strings.HasSuffix(namedOrType(rv.Type()), "packetOutcome") {
+					continue
+				}
+				if v := fieldOfReturnedStruct(ro.Ret, i, "responseAlert"); v != nil && !isNilConst(v) {
+					bad3 = "a response alert is returned at " + c.ipos(ro.Ret)
+				}
+				if cl, isCall := unspill(rv).(*ssa.Call); isCall {
+					// an outcome built by a helper: what that helper returns
+					if g := cl.Call.StaticCallee(); g != nil && len(g.Blocks) > 0 {
+						for _, gb := range g.Blocks {
+							if gr, isRet := gb.Instrs[len(gb.Instrs)-1].(*ssa.Return); isRet && len(gr.Results) == 1 {
+								if v := fieldOfReturnedStruct(gr, 0, "responseAlert"); v != nil && !isNilConst(v) {
+									bad3 = "a response alert (" + short(g) + ") is returned at " + c.ipos(ro.Ret)
+								}
+							}
+						}
+					}
+				}
 			}
 		}
-		r.Check(bad3 == "" && len(w3.Returns) > 0, rule, short(ad)+":application-data-epoch0", c.pos(ad.Pos()), "application data in epoch 0 is dropped", "application data in an unprotected (epoch 0) record is answered: "+bad3+": one forged datagram ends a handshake in progress")
+		r.Sites += len(ad.Blocks)
+		r.Check(bad3 == "" && len(w3.Returns) > 0 && !w3.overflow, rule, short(ad)+":application-data-epoch0", c.pos(ad.Pos()), "application data in epoch 0 is dropped", "application data in an unprotected (epoch 0) record is answered: "+bad3+": one forged datagram ends a handshake in progress")
 	}
+	r.Floor(rule, nAD, 1)
 	r.Check(ok, rule, short(fn), c.pos(fn.Pos()), "an epoch-0 record received after the peer switched epochs is answered with nothing and returns no error", "an unprotected record that arrives after the peer switched to a protected epoch can still provoke an answer: "+bad+": one forged datagram (an alert with a one-byte body, a ChangeCipherSpec with a wrong body, application data in epoch 0, a truncated ACK) makes this side send its genuine peer a protected fatal alert and both close")
 }
 
@@ -691,6 +833,15 @@ func ruleRepeatedHelloJudgedByType(c *Ctx, r *Report) {
 						}
 					case *ssa.UnOp:
 						look(x.X, d+1)
+					case *ssa.Call:
+						// a helper of the package that gives the verdict: what it returns
+						if g := x.Call.StaticCallee(); g != nil && g.Pkg == fn.Pkg && len(g.Blocks) > 0 && g.Signature.Results().Len() == 1 {
+							for _, gb := range g.Blocks {
+								if ret, isRet := gb.Instrs[len(gb.Instrs)-1].(*ssa.Return); isRet {
+									look(unspill(ret.Results[0]), d+1)
+								}
+							}
+						}
 					}
 				}
 				look(st.Val, 0)
